@@ -841,6 +841,14 @@ class Association(threading.Thread):
         rsp.AffectedSOPInstanceUID = req.AffectedSOPInstanceUID
         rsp.AffectedSOPClassUID = req.AffectedSOPClassUID
 
+        if req._context_id not in self._accepted_cx:
+            LOGGER.info(
+                "Received C-STORE request with invalid or rejected "
+                f"context ID: {req._context_id}"
+            )
+            self.abort()
+            return
+
         try:
             context = self._get_valid_context(
                 cast(UID, req.AffectedSOPClassUID),
@@ -849,9 +857,9 @@ class Association(threading.Thread):
                 context_id=req._context_id,
             )
         except ValueError:
-            # SOP Class not supported, no context ID?
+            # SOP Class not supported on this (accepted) context
             rsp.Status = 0x0122
-            self.dimse.send_msg(rsp, 1)
+            self.dimse.send_msg(rsp, cast(int, req._context_id))
             return
 
         # Attempt to handle the service request
@@ -2146,6 +2154,12 @@ class Association(threading.Thread):
                 # Received a C-STORE request from the peer
                 # Should occur during C-GET and may occur during C-MOVE
                 self._c_store_scp(rsp)
+                if self.is_aborted:
+                    # C-STORE request on an invalid/rejected context ID
+                    self._reactor_checkpoint.set()
+                    yield Dataset(), None
+                    return
+
                 continue
 
             if not rsp.is_valid_response:
